@@ -258,6 +258,9 @@ v("C15", "twin-window-bounds-swapped-operands", WD, "if self.starttime is not No
 v("C15", "unguarded-group", WD, "        try:\n            msecs = int(match.group(\"frac\"))\n        except (IndexError, TypeError):\n            msecs = 0\n",
   "        msecs = int(match.group(\"frac\"))\n", rules=["C15.R5"])
 
+v("C08", "index-scan-resumes-at-remembered-row", RF, '                    self.rf_index_len = self.rf_index.shape[0]\n\n                # loop through each row in rf_index\n                for row in range(self.rf_index_len):\n                    block_start_sample = int(self.rf_index[row, 0])\n', '                    self.rf_index_len = self.rf_index.shape[0]\n                    self._row0 = 0\n\n                # loop through each row in rf_index\n                for row in range(self._row0, self.rf_index_len):\n                    self._row0 = row\n                    block_start_sample = int(self.rf_index[row, 0])\n', rules=["C08.R8"])
+v("C08", "twin-query-remembered-never-read", RF, '                    self.rf_index_len = self.rf_index.shape[0]\n\n                # loop through each row in rf_index\n                for row in range(self.rf_index_len):\n                    block_start_sample = int(self.rf_index[row, 0])\n', '                    self.rf_index_len = self.rf_index.shape[0]\n\n                self._last_query = (start_sample, end_sample)\n                # loop through each row in rf_index\n                for row in range(self.rf_index_len):\n                    block_start_sample = int(self.rf_index[row, 0])\n', expect="silent")
+
 # ---- C16 / C17 / C18 -----------------------------------------------------------------------------------------
 v("C16", "remove-untracked-path", RB, "        self.remove_files([event.src_path])\n\n    def on_modified", "        os.remove(event.src_path)\n        self.remove_files([event.src_path])\n\n    def on_modified", rules=["C16.R1"])
 v("C16", "properties-tracked", RB, "            include_drf_properties=False,\n            include_dmd_properties=False,\n        )\n\n    def status(self):",
